@@ -1,4 +1,6 @@
 pub mod enc;
+pub mod op;
+pub mod hmap;
 
 /// One operation per line: `<op> <args…>`; the result is one line of canonical text.
 pub fn dispatch(line: &str) -> String {
@@ -7,6 +9,10 @@ pub fn dispatch(line: &str) -> String {
     let rest = it.next().unwrap_or("");
     match op {
         "enc" => enc::run(rest),
+        "op" => op::run_op(rest),
+        "un" => op::run_un(rest),
+        "eqhash" => op::run_eqhash(rest),
+        "hmap" => hmap::run(rest),
         _ => format!("bad-op {}", op),
     }
 }
